@@ -1,4 +1,5 @@
 import MlodaVerif.Lemmas.SchedFail
+import MlodaVerif.Model.Store
 /-! # C13 - streaming yields the same results as the batch call
 
 `compute_stream` is `compute` plus a drain of the result collection at the end of every pass (`popitem`, last in first
@@ -64,6 +65,32 @@ theorem C13.yield_complete (p : Plan) (hd : DisjointOuts p) (evs : List Ev) (i :
 theorem C13.prefix (p : Plan) (evs more : List Ev) :
     (run p init evs).yielded <+: (run p init (evs ++ more)).yielded := by
   rw [run_append]; exact prefix_run p more _
+
+/-- abandoning or failing the generator releases the run's workers: closing the generator (or an exception thrown into
+it) is an exception raised at the `yield` inside the loop of `compute_stream`, so the `finally: self.join()` of
+`compute_stream` runs exactly as on any raise - whatever was spawned before the consumer stopped, no worker stays live
+(bookkeeping model `Store.compute`; that terminate()/join() end an OS process is observed by the harness) -/
+theorem C13.stream_close_releases (spawns : List (Nat × Bool)) (joinFails : Nat → Bool) (h : ∀ t, joinFails t = false) :
+    (Store.compute spawns .raised joinFails).1.live = [] := by
+  have hsub : ∀ (w : Store.WM), (∀ t ∈ w.live, t ∈ w.tasks) →
+      ∀ t ∈ (spawns.foldl (fun w ts => Store.spawn w ts.1 ts.2) w).live,
+        t ∈ (spawns.foldl (fun w ts => Store.spawn w ts.1 ts.2) w).tasks := by
+    induction spawns with
+    | nil => intro w hw; exact hw
+    | cons s rest ih =>
+      intro w hw
+      apply ih
+      intro t ht
+      simp only [Store.spawn] at ht ⊢
+      split at ht
+      · simp; exact Or.inl (hw t ht)
+      · simp at ht ⊢; rcases ht with ht | ht
+        · exact Or.inl (hw t ht)
+        · exact Or.inr ht
+  simp only [Store.compute, Store.joinAll]
+  apply List.filter_eq_nil_iff.mpr
+  intro t ht
+  simp [h t, hsub {} (by simp) t ht]
 
 /-- non-vacuity: two result steps collected in one pass are yielded in `popitem` (reverse) order -/
 example :
